@@ -114,123 +114,158 @@ func TestReplayBastion(t *testing.T) {
 		return b
 	}
 	ok := 0
+	// a violation witness only says THAT the checkpoint's origin is not a configured one (or that
+	// the checkpoint is not valid for its log), not how: it is rebuilt in several ways and the
+	// first under which the real handler departs from the documented answer is reported
+	originVariants := []string{"some.other/origin", origin + "0", origin[:len(origin)-1], strings.ToUpper(origin), origin + " "}
 	for idx, sc := range scs {
-		m := sc.Model
-		lc := LogConfig{Logs: []LogInfo{{Origin: origin, PublicKey: lvk}}}
-		known, err := lc.AsLogMap()
-		if err != nil {
-			t.Fatal(err)
-		}
-		store := inmemory.NewPersistence()
-		w, err := witness.New(witness.Opts{Persistence: store, Signers: []note.Signer{ws}, KnownLogs: known})
-		if err != nil {
-			t.Fatal(err)
-		}
-		l, err := config.NewLog(origin, lvk, "https://log.example")
-		if err != nil {
-			t.Fatal(err)
-		}
-		h := bastion.NativeNewHandlerLimited(witnessAdapter{w: w}, []config.Log{l}, ws.Verifier(), bB(m, "b.allow"))
+		isViolation := strings.HasPrefix(sc.Cover, "violation:")
+		for vi, unknownOrigin := range originVariants {
+			if vi > 0 && !isViolation {
+				break
+			}
+			m := sc.Model
+			lc := LogConfig{Logs: []LogInfo{{Origin: origin, PublicKey: lvk}}}
+			known, err := lc.AsLogMap()
+			if err != nil {
+				t.Fatal(err)
+			}
+			store := inmemory.NewPersistence()
+			w, err := witness.New(witness.Opts{Persistence: store, Signers: []note.Signer{ws}, KnownLogs: known})
+			if err != nil {
+				t.Fatal(err)
+			}
+			l, err := config.NewLog(origin, lvk, "https://log.example")
+			if err != nil {
+				t.Fatal(err)
+			}
+			h := bastion.NativeNewHandlerLimited(witnessAdapter{w: w}, []config.Log{l}, ws.Verifier(), bB(m, "b.allow"))
 
-		prevSize, nextSize, oldSize := bU(m, "b.prevSize"), bU(m, "b.nextSize"), bU(m, "b.oldSize")
-		max := prevSize
-		if nextSize > max {
-			max = nextSize
-		}
-		hsA, rootA := bTree(t, "A", max)
-		_, rootB := bTree(t, "B", max)
-		knownOrigin, stored := bB(m, "b.known"), bB(m, "b.stored")
-		if knownOrigin && stored {
-			switch {
-			case bB(m, "b.prevValid") && bB(m, "b.prevWitOK"):
-				// a checkpoint this witness really cosigned
-				if _, err := w.Update(context.Background(), l.ID, 0, sign(ls, origin, prevSize, rootA(prevSize)), nil); err != nil {
-					t.Fatalf("preload by update failed: %v", err)
+			prevSize, nextSize, oldSize := bU(m, "b.prevSize"), bU(m, "b.nextSize"), bU(m, "b.oldSize")
+			max := prevSize
+			if nextSize > max {
+				max = nextSize
+			}
+			hsA, rootA := bTree(t, "A", max)
+			_, rootB := bTree(t, "B", max)
+			knownOrigin, stored := bB(m, "b.known"), bB(m, "b.stored")
+			if knownOrigin && stored {
+				switch {
+				case bB(m, "b.prevValid") && bB(m, "b.prevWitOK"):
+					// a checkpoint this witness really cosigned
+					if _, err := w.Update(context.Background(), l.ID, 0, sign(ls, origin, prevSize, rootA(prevSize)), nil); err != nil {
+						t.Fatalf("preload by update failed: %v", err)
+					}
+				default:
+					var b []byte
+					if bB(m, "b.prevValid") {
+						b = sign(ls, origin, prevSize, rootA(prevSize)) // log-signed but not cosigned by this witness
+					} else {
+						b = []byte("this is not a checkpoint of the log\n")
+					}
+					wo, err := store.WriteOps(l.ID)
+					if err != nil || wo.Set(b) != nil {
+						t.Fatal("preload failed")
+					}
+					_ = wo.Close()
 				}
-			default:
-				var b []byte
-				if bB(m, "b.prevValid") {
-					b = sign(ls, origin, prevSize, rootA(prevSize)) // log-signed but not cosigned by this witness
+			}
+			var body []byte
+			if bB(m, "b.malformed") {
+				body = []byte("this is not an add-checkpoint request")
+			} else {
+				org := origin
+				if !knownOrigin {
+					org = unknownOrigin
+				}
+				sameRoot, vcOK := bB(m, "b.sameRoot"), bB(m, "b.vcOK")
+				root := rootA(nextSize)
+				if stored && prevSize == nextSize && !sameRoot {
+					root = rootB(nextSize)
+					if nextSize == 0 {
+						root = bytes.Repeat([]byte{9}, 32)
+					}
+				}
+				if stored && nextSize > prevSize && !vcOK && prevSize > 0 {
+					root = rootB(nextSize)
+				}
+				signer := ls
+				if knownOrigin && !bB(m, "b.nextValid") {
+					signer = wrong
+				}
+				var cp []byte
+				if !bB(m, "b.hasNewline") && m["b.hasNewline"] != "" {
+					cp = []byte("no-second-line")
 				} else {
-					b = []byte("this is not a checkpoint of the log\n")
+					cp = sign(signer, org, nextSize, root)
 				}
-				wo, err := store.WriteOps(l.ID)
-				if err != nil || wo.Set(b) != nil {
-					t.Fatal("preload failed")
+				var pf [][]byte
+				if stored && nextSize > prevSize && prevSize > 0 && vcOK {
+					tp, err := tlog.ProveTree(int64(nextSize), int64(prevSize), hsA)
+					if err != nil {
+						t.Fatal(err)
+					}
+					for _, x := range tp {
+						x := x
+						pf = append(pf, x[:])
+					}
+				} else {
+					for i := uint64(0); i < bU(m, "b.proofLen"); i++ {
+						pf = append(pf, bytes.Repeat([]byte{byte(0xa0 + i)}, 32))
+					}
 				}
-				_ = wo.Close()
+				body = []byte(fmt.Sprintf("old %d\n", oldSize))
+				for _, x := range pf {
+					body = append(body, []byte(base64.StdEncoding.EncodeToString(x)+"\n")...)
+				}
+				body = append(body, '\n')
+				body = append(body, cp...)
 			}
+			rr := httptest.NewRecorder()
+			h.ServeHTTP(rr, httptest.NewRequest(http.MethodPost, "/", bytes.NewReader(body)))
+			gotStatus := uint64(rr.Code)
+			gotSizeBody := rr.Header().Get("Content-Type") == "text/x.tlog.size"
+			gotHasBody := rr.Body.Len() > 0
+			match := gotStatus == bU(m, "b.status") && gotSizeBody == bB(m, "b.sizeBody") && gotHasBody == bB(m, "b.hasBody")
+			// on 200 the body must be a signature line that verifies under the witness key over the submitted text
+			if gotStatus == 200 {
+				got, gerr := w.GetCheckpoint(l.ID)
+				if gerr != nil || !bytes.Contains(got, bytes.TrimSpace(rr.Body.Bytes())) {
+					match = false
+				}
+			}
+			if isViolation {
+				// native oracle: the documented answer for the classes that need no witness state
+				var want uint64
+				switch {
+				case !bB(m, "b.allow"):
+					want = 429
+				case bB(m, "b.malformed"):
+					want = 400
+				case m["b.hasNewline"] != "" && !bB(m, "b.hasNewline"):
+					want = 0 // (not stated here)
+				case !knownOrigin:
+					want = 404
+				case !bB(m, "b.nextValid"):
+					want = 403
+				}
+				oracles := ""
+				if want != 0 && gotStatus != want {
+					oracles = "C10,C12"
+				}
+				if oracles != "" || vi == len(originVariants)-1 || knownOrigin {
+					fmt.Printf("SCENARIO %d %s match=%v (status %d, documented %d, origin %q) oracles=%s\n", idx, sc.Cover, match, gotStatus, want, unknownOrigin, oracles)
+					break
+				}
+				continue
+			}
+			fmt.Printf("SCENARIO %d %s match=%v (status %d, size-body %v, body %v)\n", idx, sc.Cover, match, gotStatus, gotSizeBody, gotHasBody)
+			if !match {
+				t.Errorf("REPLAY MISMATCH cover=%s: engine predicted status %d sizeBody=%v hasBody=%v, real handler answered %d sizeBody=%v hasBody=%v; model=%v", sc.Cover, bU(m, "b.status"), bB(m, "b.sizeBody"), bB(m, "b.hasBody"), gotStatus, gotSizeBody, gotHasBody, m)
+				break
+			}
+			ok++
 		}
-		var body []byte
-		if bB(m, "b.malformed") {
-			body = []byte("this is not an add-checkpoint request")
-		} else {
-			org := origin
-			if !knownOrigin {
-				org = "some.other/origin"
-			}
-			sameRoot, vcOK := bB(m, "b.sameRoot"), bB(m, "b.vcOK")
-			root := rootA(nextSize)
-			if stored && prevSize == nextSize && !sameRoot {
-				root = rootB(nextSize)
-				if nextSize == 0 {
-					root = bytes.Repeat([]byte{9}, 32)
-				}
-			}
-			if stored && nextSize > prevSize && !vcOK && prevSize > 0 {
-				root = rootB(nextSize)
-			}
-			signer := ls
-			if knownOrigin && !bB(m, "b.nextValid") {
-				signer = wrong
-			}
-			var cp []byte
-			if !bB(m, "b.hasNewline") && m["b.hasNewline"] != "" {
-				cp = []byte("no-second-line")
-			} else {
-				cp = sign(signer, org, nextSize, root)
-			}
-			var pf [][]byte
-			if stored && nextSize > prevSize && prevSize > 0 && vcOK {
-				tp, err := tlog.ProveTree(int64(nextSize), int64(prevSize), hsA)
-				if err != nil {
-					t.Fatal(err)
-				}
-				for _, x := range tp {
-					x := x
-					pf = append(pf, x[:])
-				}
-			} else {
-				for i := uint64(0); i < bU(m, "b.proofLen"); i++ {
-					pf = append(pf, bytes.Repeat([]byte{byte(0xa0 + i)}, 32))
-				}
-			}
-			body = []byte(fmt.Sprintf("old %d\n", oldSize))
-			for _, x := range pf {
-				body = append(body, []byte(base64.StdEncoding.EncodeToString(x)+"\n")...)
-			}
-			body = append(body, '\n')
-			body = append(body, cp...)
-		}
-		rr := httptest.NewRecorder()
-		h.ServeHTTP(rr, httptest.NewRequest(http.MethodPost, "/", bytes.NewReader(body)))
-		gotStatus := uint64(rr.Code)
-		gotSizeBody := rr.Header().Get("Content-Type") == "text/x.tlog.size"
-		gotHasBody := rr.Body.Len() > 0
-		match := gotStatus == bU(m, "b.status") && gotSizeBody == bB(m, "b.sizeBody") && gotHasBody == bB(m, "b.hasBody")
-		// on 200 the body must be a signature line that verifies under the witness key over the submitted text
-		if gotStatus == 200 {
-			got, gerr := w.GetCheckpoint(l.ID)
-			if gerr != nil || !bytes.Contains(got, bytes.TrimSpace(rr.Body.Bytes())) {
-				match = false
-			}
-		}
-		fmt.Printf("SCENARIO %d %s match=%v (status %d, size-body %v, body %v)\n", idx, sc.Cover, match, gotStatus, gotSizeBody, gotHasBody)
-		if !match {
-			t.Errorf("REPLAY MISMATCH cover=%s: engine predicted status %d sizeBody=%v hasBody=%v, real handler answered %d sizeBody=%v hasBody=%v; model=%v", sc.Cover, bU(m, "b.status"), bB(m, "b.sizeBody"), bB(m, "b.hasBody"), gotStatus, gotSizeBody, gotHasBody, m)
-			continue
-		}
-		ok++
 	}
 	fmt.Printf("REPLAYED %d cover witnesses against the real build\n", ok)
 }
